@@ -13,7 +13,7 @@
   returns a state, raises ConflictError, or raises anything else.  The pickle byte layout is
   runtime and tied to the model by the correspondence check (harness/c10.py).
 -/
-import Proofs.StoreRulesThm
+import Proofs.ResolveC10
 namespace Props.C10
 open ZodbModel ZodbModel.Resolve ZodbModel.StoreRules Proofs.Resolve
 
@@ -68,23 +68,8 @@ theorem store_stores_resolver_output (E : Env) (k : Kind) (base : Hist) (hb : So
           out := .resolvedStore,
           calls := [{ cls := data.hdr.cls, old := loadState E.ci old.state,
                       committed := loadState E.ci committed.state,
-                      new := loadState E.ci data.state }] } := by
-  have hi := Proofs.StoreRules.reachable_inv E k base hb s h
-  by_cases hl : s.lock = some t
-  · rw [Proofs.StoreRules.step_store_eq E k base s hi t hl] at ho ⊢
-    obtain ⟨ct, old, committed, m, hc, hne, hk, hinv, hres⟩ :=
-      Proofs.StoreRules.storeSpec_resolvedStore E s oid serial data ho
-    refine ⟨ct, old, committed, m, hc, hne, ?_, ?_, hres,
-      Proofs.StoreRules.storeSpec_resolved E s oid serial ct data hc hne hk old committed m hinv hres⟩
-    · have := hinv.oldLoaded
-      rw [hi.kind, hi.base] at this
-      exact this
-    · have := hinv.committedLoaded
-      rw [hi.kind, hi.base] at this
-      simpa [committedOf] using this
-  · have : (step E s (.store t oid serial data)).out = .txnError := by simp [step, hl]
-    rw [this] at ho
-    cases ho
+                      new := loadState E.ci data.state }] } :=
+  Proofs.C10Props.store_stores_resolver_output E k base hb s h t oid serial data ho
 
 /-- The same for everything committed: a committed revision flagged `resolved` is the merge of
     (state at its base serial, state of the immediately preceding revision, wanted), both states
@@ -93,37 +78,15 @@ theorem committed_resolved_is_merge (E : Env) (k : Kind) (base : Hist) (hb : Sor
     (h : Reachable E k base s) (newer : Hist) (t : Txn) (older : Hist)
     (hs : s.hist = newer ++ t :: older) (r : Rev) (hr : r ∈ t.recs) (hres : r.resolved = true) :
     ∃ ct, currentTid (viewOf k older base) r.oid = some ct ∧ r.base ≠ ct ∧
-      Merged E (loadSerialK k older base) ct r := by
-  have hi := Proofs.StoreRules.reachable_inv E k base hb s h
-  have hn := hi.nlu
-  rw [hi.kind, hi.base] at hn
-  have hok := Proofs.StoreRules.nlu_split E k base s.hist hn newer t older hs r hr
-  unfold RevOK at hok
-  cases hc : currentTid (viewOf k older base) r.oid with
-  | none => rw [hc] at hok; rw [hok.2] at hres; cases hres
-  | some ct =>
-    rw [hc] at hok
-    rcases hok with ⟨_, _, h3⟩ | ⟨h1, _, h3⟩
-    · rw [h3] at hres; cases hres
-    · exact ⟨ct, rfl, h1, h3⟩
+      Merged E (loadSerialK k older base) ct r :=
+  Proofs.C10Props.committed_resolved_is_merge E k base hb s h newer t older hs r hr hres
 
 /-- and a committed revision NOT flagged `resolved` holds the writer's bytes unchanged -/
 theorem committed_unresolved_is_wanted (E : Env) (k : Kind) (base : Hist) (hb : Sorted base) (s : Sys)
     (h : Reachable E k base s) (newer : Hist) (t : Txn) (older : Hist)
     (hs : s.hist = newer ++ t :: older) (r : Rev) (hr : r ∈ t.recs) (hres : r.resolved = false) :
-    r.data = r.wanted := by
-  have hi := Proofs.StoreRules.reachable_inv E k base hb s h
-  have hn := hi.nlu
-  rw [hi.kind, hi.base] at hn
-  have hok := Proofs.StoreRules.nlu_split E k base s.hist hn newer t older hs r hr
-  unfold RevOK at hok
-  cases hc : currentTid (viewOf k older base) r.oid with
-  | none => rw [hc] at hok; exact hok.1
-  | some ct =>
-    rw [hc] at hok
-    rcases hok with ⟨_, h2, _⟩ | ⟨_, h2, _⟩
-    · exact h2
-    · rw [h2] at hres; cases hres
+    r.data = r.wanted :=
+  Proofs.C10Props.committed_unresolved_is_wanted E k base hb s h newer t older hs r hr hres
 
 /-- Exactness (no spurious conflict): if the kind resolves, the class is importable and has a
     resolver, both revisions can be loaded and the resolver returns `m`, then the conflicting store
@@ -140,19 +103,8 @@ theorem resolvable_conflict_resolves (E : Env) (k : Kind) (base : Hist) (hb : So
     (step E s (.store t oid serial data)).out = .resolvedStore ∧
     (step E s (.store t oid serial data)).sys.staged =
       { oid := oid, base := serial, data := { hdr := data.hdr, state := dumpState m },
-        wanted := data, resolved := true } :: s.staged := by
-  have hi := Proofs.StoreRules.reachable_inv E k base hb s h
-  rw [Proofs.StoreRules.step_store_eq E k base s hi t hl]
-  have hinv : Invoked E (loadSerialK s.kind s.hist s.base) s.cache oid ct serial data none old committed := by
-    rw [hi.kind, hi.base]
-    refine ⟨himp, ?_, hres, hold, by simpa [committedOf] using hcom⟩
-    intro hmem
-    have := hi.cache _ hmem
-    rw [this] at hres
-    cases hres
-  rw [Proofs.StoreRules.storeSpec_resolved E s oid serial ct data hc hne (by rw [hi.kind]; exact hk)
-    old committed m hinv hm]
-  exact ⟨rfl, rfl⟩
+        wanted := data, resolved := true } :: s.staged :=
+  Proofs.C10Props.resolvable_conflict_resolves E k base hb s h t hl oid serial ct data old committed m hc hne hk himp hres hold hcom hm
 
 /-! ### references are preserved -/
 
@@ -223,20 +175,8 @@ theorem unresolvable_conflict_stores_nothing (E : Env) (k : Kind) (base : Hist) 
           (loadState E.ci data.state) = .error e) :
     (step E s (.store t oid serial data)).out = .conflict ∧
     (step E s (.store t oid serial data)).sys =
-      { s with cache := (step E s (.store t oid serial data)).sys.cache } := by
-  have hi := Proofs.StoreRules.reachable_inv E k base hb s h
-  rw [Proofs.StoreRules.step_store_eq E k base s hi t hl]
-  apply Proofs.StoreRules.storeSpec_unresolvable E s oid serial ct data hc hne
-  rw [hi.kind, hi.base]
-  rcases hbad with hb | hb | hb | hb
-  · left; exact hb
-  · right; exact tryToResolve_fails _ _ _ _ _ _ _ _ (Or.inl hb)
-  · right; exact tryToResolve_fails _ _ _ _ _ _ _ _ (Or.inr (Or.inl hb))
-  · right
-    apply tryToResolve_fails
-    right; right; right; right; right
-    intro old committed h1 h2
-    exact hb old committed h1 (by simpa [committedOf] using h2)
+      { s with cache := (step E s (.store t oid serial data)).sys.cache } :=
+  Proofs.C10Props.unresolvable_conflict_stores_nothing E k base hb s h t hl oid serial ct data hc hne hbad
 
 /-- The `_unresolvable` cache never makes a resolvable class fail: in reachable states it only
     contains classes without `_p_resolveConflict`. -/
@@ -263,26 +203,8 @@ theorem resolved_reported_at_vote (E : Env) (k : Kind) (base : Hist) (hb : Sorte
     resolution. -/
 theorem writer_reads_stored_state (E : Env) (k : Kind) (base : Hist) (hb : Sorted base) (s : Sys)
     (h : Reachable E k base s) :
-    ∀ r ∈ s.staged, connRead (some r.data) (afterCommit s.resolved r.oid r.wanted s.tid) = some r.data := by
-  have hi := Proofs.StoreRules.reachable_inv E k base hb s h
-  intro r hr
-  unfold afterCommit
-  by_cases hm : r.oid ∈ s.resolved
-  · simp [hm, connRead]
-  · simp only [hm, if_false, connRead]
-    have hnr : r.resolved = false := by
-      cases hres : r.resolved with
-      | false => rfl
-      | true => exact absurd ((hi.resolvedIff r.oid).2 ⟨r, hr, rfl, hres⟩) hm
-    have hok := hi.staged r hr
-    unfold RevOK at hok
-    cases hc : currentTid (viewOf s.kind s.hist s.base) r.oid with
-    | none => rw [hc] at hok; rw [hok.1]
-    | some ct =>
-      rw [hc] at hok
-      rcases hok with ⟨_, h2, _⟩ | ⟨_, h2, _⟩
-      · rw [h2]
-      · rw [h2] at hnr; cases hnr
+    ∀ r ∈ s.staged, connRead (some r.data) (afterCommit s.resolved r.oid r.wanted s.tid) = some r.data :=
+  Proofs.C10Props.writer_reads_stored_state E k base hb s h
 
 /-! ### undo -/
 
@@ -299,20 +221,8 @@ theorem undo_uses_same_resolver (E : Env) (ls : Oid → Tid → Option Record) (
           (loadState E.ci preData.state) = .ok m ∧
         d = { hdr := preData.hdr, state := dumpState m }) ∧
     (∀ e, (undoResolve E ls cache oid ctid undoneTid preData currentData).out = .error e →
-      e = .undoError) := by
-  constructor
-  · rw [undoResolve_ok_iff, tryToResolve_ok_iff]
-    constructor
-    · rintro ⟨old, committed, m, ⟨h1, h2, h3, h4, h5⟩, hr, hd⟩
-      simp only [committedOf] at h5
-      injection h5 with h5
-      subst h5
-      exact ⟨old, m, h1, h2, h3, h4, hr, hd⟩
-    · rintro ⟨undone, m, h1, h2, h3, h4, hr, hd⟩
-      exact ⟨undone, currentData, m, ⟨h1, h2, h3, h4, rfl⟩, hr, hd⟩
-  · intro e _
-    cases e
-    rfl
+      e = .undoError) :=
+  Proofs.C10Props.undo_uses_same_resolver E ls cache oid ctid undoneTid preData currentData d
 
 /-! ### non-vacuity -/
 
